@@ -134,7 +134,7 @@ pub fn run(tier: Tier, seed: u64) -> Report {
     if !rep.absorb("metadata", r) {
         return rep;
     }
-    let max_ex = tier.pick(2, 3);
+    let max_ex = tier.pick(3, 5);
     for res in 0..=max_ex {
         let n = codec::num_cells(res) as u64;
         let name = format!("exhaustive-r{}", res);
@@ -156,7 +156,7 @@ pub fn run(tier: Tier, seed: u64) -> Report {
     let r = run_pbt(
         "cells",
         seed,
-        tier.pick(1_500, 60_000),
+        tier.pick(15_000, 400_000),
         || picks(0, 29, 3),
         |p, st| {
             let (id, c, label) = p.resolve()?;
